@@ -227,6 +227,7 @@ fn change_one_deep_leaf(v: &mut Value, rng: &mut Rng) {
             let i = rng.usize_below(o.len());
             if let Some((_, slot)) = o.iter_mut().nth(i) { change_one_deep_leaf(slot, rng) }
         }
+        Value::Number(_) | Value::String(_) | Value::Null | Value::Boolean(_) if rng.chance(1, 8) => { let inner = v.clone(); *v = Value::Array(vec![inner].into()); }
         Value::Number(_) | Value::String(_) | Value::Null | Value::Boolean(_) if rng.chance(1, 6) && other_kind_same_text(v).is_some() => { let k = rng.usize_below(30); *v = kin(v, k).or_else(|| other_kind_same_text(v)).unwrap(); }
         Value::Number(n) if rng.chance(1, 3) && number_respelled(n.as_str(), &mut rng.clone()).is_some() => { let t = number_respelled(n.as_str(), rng).unwrap(); *v = Value::Number(json_syntax::NumberBuf::new(t.as_bytes().into()).unwrap()); }
         Value::Number(n) => {
@@ -346,6 +347,16 @@ pub fn run_c14(sc: &HistSc, st: &mut Stats) -> super::c06::HistOutcome {
             let mut near: Vec<(&'static str, Vec<Entry>)> = vec![];
             { let mut e = obs.clone(); e[j].value = different_leaf(&e[j].value); near.push(("one value changed", e)); }
             if let Some(w) = kin(&obs[j].value, rng.usize_below(30)) { let mut e = obs.clone(); e[j].value = w; near.push(("one value turned into its kin of another kind (same text, or the other kind's empty / zero value)", e)); }
+            {
+                // one value wrapped into a one-item array / a one-entry object, or a one-item array unwrapped
+                let v = obs[j].value.clone();
+                let w = match (&v, rng.below(3)) {
+                    (Value::Array(a), 0) if a.len() == 1 => a[0].clone(),
+                    (_, 1) => Value::Object(Object::from_vec(vec![Entry::new(Key::from(""), v.clone())])),
+                    _ => Value::Array(vec![v.clone()].into()),
+                };
+                let mut e = obs.clone(); e[j].value = w; near.push(("one value wrapped into (or unwrapped from) a one-item container", e));
+            }
             if let Value::Number(n) = &obs[j].value { if let Some(t) = number_respelled(n.as_str(), &mut rng) { let mut e = obs.clone(); e[j].value = Value::Number(json_syntax::NumberBuf::new(t.as_bytes().into()).unwrap()); near.push(("one number respelled (exponent marker, sign, trailing zero)", e)); } }
             { let mut e = obs.clone(); change_one_deep_leaf(&mut e[j].value, &mut rng); near.push(("one leaf changed inside a nested value", e)); }
             { let mut e = obs.clone(); let mut k = e[j].key.as_str().to_string(); k.push('~'); e[j].key = Key::from(k.as_str()); near.push(("one key changed", e)); }
